@@ -69,6 +69,47 @@ theorem pairLe_totalLe : TotalLe pairLe where
       intro h1 h2
       exact absurd (strLe_totalLe.antisymm _ _ h1 h2) h
 
+theorem strPairLe_totalLe : TotalLe strPairLe where
+  total a b := by
+    unfold strPairLe
+    by_cases h : a.1 = b.1
+    · simp only [h, if_true]; exact strLe_totalLe.total _ _
+    · have h' : ¬ b.1 = a.1 := fun e => h e.symm
+      simp only [h, h', if_false]; exact strLe_totalLe.total _ _
+  trans a b c := by
+    obtain ⟨a1, a2⟩ := a
+    obtain ⟨b1, b2⟩ := b
+    obtain ⟨c1, c2⟩ := c
+    unfold strPairLe
+    dsimp only
+    by_cases h1 : a1 = b1 <;> by_cases h2 : b1 = c1
+    · subst h1; subst h2
+      simp only [↓reduceIte]; exact strLe_totalLe.trans _ _ _
+    · subst h1
+      simp only [h2, ↓reduceIte]
+      intro _ hbc; exact hbc
+    · subst h2
+      simp only [h1, ↓reduceIte]
+      intro hab _; exact hab
+    · simp only [h1, h2, ↓reduceIte]
+      intro hab hbc
+      have hac := strLe_totalLe.trans _ _ _ hab hbc
+      by_cases h3 : a1 = c1
+      · exfalso
+        subst h3
+        exact h2 (strLe_totalLe.antisymm _ _ hbc hab)
+      · simp only [h3, ↓reduceIte]; exact hac
+  antisymm a b := by
+    unfold strPairLe
+    by_cases h : a.1 = b.1
+    · simp only [h, if_true]
+      intro h1 h2
+      exact Prod.ext h (strLe_totalLe.antisymm _ _ h1 h2)
+    · have h' : ¬ b.1 = a.1 := fun e => h e.symm
+      simp only [h, h', if_false]
+      intro h1 h2
+      exact absurd (strLe_totalLe.antisymm _ _ h1 h2) h
+
 section
 variable {α κ : Type} [DecidableEq κ] (key : α → κ) (le : κ → κ → Bool)
 
@@ -313,7 +354,41 @@ theorem nodup_dedup {α : Type} [DecidableEq α] (l : List α) : (dedup l).Nodup
 theorem setOrder_dedup {α : Type} [DecidableEq α] (l : List α) : SetOrder (dedup l) l :=
   ⟨nodup_dedup l, fun _ => mem_dedup⟩
 
-/-! ### `dedupTy` (first occurrence per annotation type) acts inside the classes of equal type *name* -/
+/-! ### two sorts whose comparisons agree on the items give the same list -/
+
+theorem insertBy_le_congr {α κ₁ κ₂ : Type} (key₁ : α → κ₁) (le₁ : κ₁ → κ₁ → Bool) (key₂ : α → κ₂)
+    (le₂ : κ₂ → κ₂ → Bool) (a : α) (l : List α)
+    (h : ∀ b ∈ l, le₁ (key₁ a) (key₁ b) = le₂ (key₂ a) (key₂ b)) :
+    insertBy key₁ le₁ a l = insertBy key₂ le₂ a l := by
+  induction l with
+  | nil => rfl
+  | cons b l ih =>
+    unfold insertBy
+    rw [h b List.mem_cons_self]
+    split
+    · rfl
+    · congr 1
+      exact ih fun c hc => h c (List.mem_cons_of_mem _ hc)
+
+theorem sortBy_le_congr {α κ₁ κ₂ : Type} (key₁ : α → κ₁) (le₁ : κ₁ → κ₁ → Bool) (key₂ : α → κ₂)
+    (le₂ : κ₂ → κ₂ → Bool) (l : List α)
+    (h : ∀ a ∈ l, ∀ b ∈ l, le₁ (key₁ a) (key₁ b) = le₂ (key₂ a) (key₂ b)) :
+    sortBy key₁ le₁ l = sortBy key₂ le₂ l := by
+  induction l with
+  | nil => rfl
+  | cons a l ih =>
+    simp only [sortBy]
+    rw [ih fun x hx y hy => h x (List.mem_cons_of_mem _ hx) y (List.mem_cons_of_mem _ hy)]
+    apply insertBy_le_congr
+    intro b hb
+    exact h a List.mem_cons_self b (List.mem_cons_of_mem _ (mem_sortBy.mp hb))
+
+/-! ### the key of the caller loops -/
+
+theorem callerKey_inj (a b : Caller) (h : callerKey a = callerKey b) : a = b := by
+  cases a <;> cases b <;> simp_all [callerKey, pyStr]
+
+/-! ### `dedupTy` (first occurrence per annotation type) acts inside the classes of equal type (name, namespace) -/
 
 theorem dedupTyGo_congr (s₁ s₂ : List (String × String)) (l : List Proc)
     (h : ∀ p ∈ l, (p.ty ∈ s₁ ↔ p.ty ∈ s₂)) : dedupTyGo s₁ l = dedupTyGo s₂ l := by
@@ -338,20 +413,20 @@ theorem dedupTyGo_seen_irrelevant (t : String × String) (seen : List (String ×
   intro p hp
   simp [h p hp]
 
-theorem cls_dedupTyGo (k : String) (seen : List (String × String)) (l : List Proc) :
-    cls Proc.tyName k (dedupTyGo seen l) = dedupTyGo seen (cls Proc.tyName k l) := by
+theorem cls_dedupTyGo (k : String × String) (seen : List (String × String)) (l : List Proc) :
+    cls Proc.key k (dedupTyGo seen l) = dedupTyGo seen (cls Proc.key k l) := by
   induction l generalizing seen with
   | nil => rfl
   | cons p l ih =>
     rw [cls_cons]
     by_cases hs : p.ty ∈ seen
     · rw [dedupTyGo, if_pos hs, ih]
-      by_cases hk : p.tyName = k
+      by_cases hk : p.key = k
       · simp only [hk, if_true, List.singleton_append]
         rw [dedupTyGo, if_pos hs]
       · simp [hk]
     · rw [dedupTyGo, if_neg hs, cls_cons, ih]
-      by_cases hk : p.tyName = k
+      by_cases hk : p.key = k
       · simp only [hk, if_true, List.singleton_append]
         rw [dedupTyGo, if_neg hs]
       · simp only [hk, if_false, List.nil_append]
@@ -359,13 +434,15 @@ theorem cls_dedupTyGo (k : String) (seen : List (String × String)) (l : List Pr
         intro q hq hty
         have hq' := (mem_cls.mp hq).2
         apply hk
-        have : q.tyName = p.tyName := by
-          have := congrArg Prod.snd hty
-          simpa [Proc.ty] using this
+        have : q.key = p.key := by
+          have h1 := congrArg Prod.fst hty
+          have h2 := congrArg Prod.snd hty
+          simp only [Proc.ty] at h1 h2
+          simp only [Proc.key, h1, h2]
         rw [← this]; exact hq'
 
-theorem ClassEq.dedupTy {l₁ l₂ : List Proc} (h : ClassEq Proc.tyName l₁ l₂) :
-    ClassEq Proc.tyName (dedupTy l₁) (dedupTy l₂) := by
+theorem ClassEq.dedupTy {l₁ l₂ : List Proc} (h : ClassEq Proc.key l₁ l₂) :
+    ClassEq Proc.key (dedupTy l₁) (dedupTy l₂) := by
   intro k
   unfold Order.dedupTy
   rw [cls_dedupTyGo, cls_dedupTyGo, h k]
